@@ -116,8 +116,12 @@ def run(ctx):
                 "row_group_offsets None/int/list, has_nulls True/False/'infer'/list, page size, data page v1/v2, stats, times, "
                 "object_encoding, file_scheme, write_index); trivial = the write raised (allowed outcome); distinct = distinct (spec, options)")
     jobs = gen_jobs(ctx)
-    with mp.get_context("fork").Pool(min(16, os.cpu_count() or 4), initializer=_init) as pool:
-        results = pool.map(_job, jobs, chunksize=4)
+    results = C.pmap(_job, jobs, init=_init, nproc=min(16, os.cpu_count() or 4), job_timeout=600)
+    for i, r in enumerate(results):
+        if isinstance(r, dict) and "__crashed__" in r:
+            # the interpreter died / hung / the harness could not even compare: never an allowed outcome of write -> read
+            results[i] = {"outcome": "read-raised", "problems": ["write -> read did not complete: " + r["__crashed__"]],
+                          "tb": r.get("tb", ""), "err": r["__crashed__"], "obs": None, "crashed": True}
     cmds, meta = [], []
     for (spec, o), res in zip(jobs, results):
         kinds = sorted(set(c["kind"] for c in spec["cols"]))
@@ -132,6 +136,9 @@ def run(ctx):
         if res["outcome"] in ("differs", "read-raised"):
             cls = rt.classify(spec, o, res)
             cls["n"] = spec["n"]
+            if res.get("crashed"):
+                cls["outcome"] = "crashed"
+                ctx.count("outcome", "crashed")
             ctx.fail(cls, {"spec": spec, "opts": o}, "; ".join(res["problems"])[:1500] + (" | " + res.get("tb", "")[-600:] if res.get("tb") else ""))
         obs = res.get("obs")
         if obs and "error" not in obs:
